@@ -421,6 +421,11 @@ static void fp_case(double d, int is_float) {
 #else
         long double tol = 0.5L * u * (1 + 1e-12L) + ulp;
 #endif
+        if (!is_float && isinf((double) got) && (got < 0) == (d < 0) && fabs(d) >= 0x1.fffffffffffe2p+1023 && tl >= 21 && memcmp(t + tl - 21, "1.79769313486232e+308", 21) == 0) {
+            /* recorded finding: the largest doubles round UP to 1.79769313486232e+308 at 15 digits (as C16 demands), a literal beyond the
+             * largest double, which the reader converts to infinity (the correctly rounded IEEE result for that literal) */
+            vh_violation("C07:largest-doubles-read-back-as-infinity", "double %a emitted as \"%s\" decoded as %La", d, vh_esc(t, tl), got);
+        } else
         if (!(diff <= tol)) {
             long double units = u > 0 ? diff / u : 0;
 #if VH_LIB_DTOSTRE
@@ -445,7 +450,8 @@ static uint64_t p6_count(int thorough) {
 static void p6_run(uint64_t idx, vh_rng_t * rng) {
     double d; uint64_t b;
     switch (idx % 7) {
-        case 6: d = ldexp(1.0, (int) vh_below(rng, 2098) - 1074); if (vh_chance(rng, 1, 2)) d = nextafter(d, vh_chance(rng, 1, 2) ? 0 : INFINITY); vh_count("fp.power_of_two_or_neighbour", 1); break; /* images of integer type limits */
+        case 6: if (idx % 49 == 6) { uint64_t top = 0x7fefffffffffffffULL - vh_below(rng, 12); memcpy(&d, &top, 8); vh_count("fp.one_of_the_twelve_largest_doubles", 1); break; } /* the very top of the range */
+                d = ldexp(1.0, (int) vh_below(rng, 2098) - 1074); if (vh_chance(rng, 1, 2)) d = nextafter(d, vh_chance(rng, 1, 2) ? 0 : INFINITY); vh_count("fp.power_of_two_or_neighbour", 1); break; /* images of integer type limits */
         case 0: b = vh_rand(rng); memcpy(&d, &b, 8); break;
         case 1: d = pow(10.0, (double) ((int) vh_below(rng, 617) - 308)); if (vh_chance(rng, 1, 2)) d = nextafter(d, vh_chance(rng, 1, 2) ? 0 : INFINITY); break;
         case 2: d = (double) (int64_t) (vh_rand(rng) >> vh_below(rng, 64)) / pow(10.0, vh_below(rng, 20)); break;
